@@ -149,7 +149,7 @@ def translated_obligations(prop, res):
     info = dict(source=str(Path(DTS_SRC) / "dtscalibration" / "dts_accessor.py"))
     res["translator"] = info
     try:
-        text, names = translate.translate(DTS_SRC)
+        text, names = translate.translate_all(DTS_SRC)
     except translate.Untranslatable as e:
         info["status"] = "untranslatable"
         res["problems"].append({"kind": "translation", "detail": f"source left the translated fragment: {e}"})
@@ -159,7 +159,7 @@ def translated_obligations(prop, res):
         res["problems"].append({"kind": "translation", "detail": f"{type(e).__name__}: {e}"})
         return
     info["term_names"] = names
-    text += "\nopen DtsVerif in\n#audit_ns DtsVerif.Gen\n"
+    text += "\n#audit_ns DtsVerif.Gen\n#audit_ns DtsVerif.GenLayout\n"
     text = text.replace("import DtsVerif.Props.C06\n", "import DtsVerif.Props.C06\nimport DtsVerif.AuditCmd\n", 1)
     olean = LEAN / ".lake" / "build" / "lib" / "lean" / "DtsVerif" / "Props" / "C06.olean"
     stamp = str(olean.stat().st_mtime_ns) if olean.exists() else "none"
